@@ -276,6 +276,20 @@ KEY_JUNK: list[tuple[str, Any]] = [
     ("media-wild", lambda k: "*/*"),
     ("media-params", lambda k: str(k) + "; a=b; c=\"d;e\""),
     ("media-upper", lambda k: str(k).upper()),
+    # media types as they arrive from hand-written or converted documents: folded, with stray separators, RFC 2231 / 5987 stars
+    ("media-newline", lambda k: str(k) + ";\n charset=utf-8"),
+    ("media-cr", lambda k: str(k) + ";\r\n\tcharset=utf-8"),
+    ("media-vtab", lambda k: str(k) + ";\x0b a=b"),
+    ("media-linesep", lambda k: str(k) + "; a=b\u2028"),
+    ("media-nel", lambda k: str(k) + "\x85"),
+    ("media-star-param", lambda k: str(k) + "; charset*"),
+    ("media-star-value", lambda k: str(k) + "; filename*=UTF-8''x%20y"),
+    ("media-star-index", lambda k: str(k) + "; a*0=b; a*1=c"),
+    ("media-trailing-semicolon", lambda k: str(k) + ";"),
+    ("media-only-semicolon", lambda k: ";"),
+    ("media-open-quote", lambda k: str(k) + "; a=\"b"),
+    ("media-space-before-semicolon", lambda k: str(k) + " ; charset=utf-8"),
+    ("media-nonascii", lambda k: str(k) + "; n=\u00e9\u4e2d"),
 ]
 KEYED_PARENTS = ("paths", "properties", "schemas", "responses", "content", "parameters", "requestBodies", "securitySchemes")
 
